@@ -31,6 +31,10 @@ type C07Plan struct {
 	EOFLast   bool     `json:"eof_with_last"`
 	Adversary string   `json:"adversary,omitempty"` // "", "child-first", "table-before-blocks"
 	SrcFault  *Fault   `json:"src_fault,omitempty"` // a read of the sender's store fails while it builds the packfiles
+	// DstFault: a first attempt of the whole transfer runs with this write fault on the destination store and is
+	// allowed to fail; the transfer is then repeated without fault, sending only what the destination still lacks
+	// (tables whose object is present count as present, as in the real table negotiation)
+	DstFault *Fault `json:"dst_fault,omitempty"`
 }
 
 func init() {
@@ -69,6 +73,8 @@ func init() {
 			p.EOFLast = r.Chance(0.3)
 			if r.Chance(0.12) {
 				p.Adversary = Pick(r, []string{"child-first", "table-before-blocks"})
+			} else if r.Chance(0.15) {
+				p.DstFault = &Fault{Op: Pick(r, []string{"set", "set", "write"}), Prefix: Pick(r, []string{"tblsum/", "tblsum/", "tblidx/", "tbl/", "blkidx/", "blk/", "com/", ""}), Nth: r.Range(1, 10)}
 			} else if r.Chance(0.15) {
 				p.SrcFault = &Fault{Op: Pick(r, []string{"get", "get", "exist", "read", "any"}), Prefix: Pick(r, []string{"tbl/", "tbl/", "blk/", "com/", ""}), Nth: r.Range(1, 12), Sticky: r.Chance(0.2)}
 			}
@@ -237,7 +243,66 @@ func execC07(t *testing.T, raw json.RawMessage, res *Result) {
 		c07Adversary(&p, res, src, dst, br, toSend, tablesToSend)
 		return
 	}
+	var retryTables map[string]struct{}
 
+	if p.DstFault != nil && p.SrcFault == nil {
+		// first attempt under the destination write fault (quietly: whatever it leaves behind is the pre-state of the retry)
+		f := *p.DstFault
+		f.seen, f.Fired = 0, 0
+		dst.Faults = []*Fault{&f}
+		func() {
+			s1, err := apiutils.NewObjectSender(src, toSend, tablesToSend, commons, p.MaxPack)
+			if err != nil {
+				return
+			}
+			r1 := apiutils.NewObjectReceiver(dst, expected, logr.Discard())
+			for i := 0; i < 100000; i++ {
+				var buf bytes.Buffer
+				done, _, err := s1.WriteObjects(&buf, nil)
+				if err != nil {
+					return
+				}
+				pr, err := packfile.NewPackfileReader(NewPartReader(buf.Bytes(), p.Cuts, p.EOFLast))
+				if err != nil {
+					return
+				}
+				if _, err := r1.Receive(pr, nil); err != nil || done {
+					return
+				}
+			}
+		}()
+		dst.Faults = nil
+		dst.TakeMonErrs()
+		if f.Fired > 0 {
+			res.fault("destination_write_error", 1)
+			res.probe("transfer_retried_after_destination_write_error", 1)
+			// what is still to be sent: commits the destination lacks, tables whose object it lacks
+			var toSend2 []*objects.Commit
+			for _, c := range toSend {
+				if _, ok := dst.Raw("com/" + string(c.Sum)); !ok {
+					toSend2 = append(toSend2, c)
+				} else if _, ok := dst.Raw("tbl/" + string(c.Table)); ok {
+					commons = append(commons, c.Sum)
+				}
+			}
+			tables2 := map[string]struct{}{}
+			for ts := range tablesToSend {
+				if _, ok := dst.Raw("tbl/" + ts); !ok {
+					tables2[ts] = struct{}{}
+				}
+			}
+			var expected2 [][]byte
+			for _, e := range expected {
+				if _, ok := dst.Raw("com/" + string(e)); !ok {
+					expected2 = append(expected2, e)
+				}
+			}
+			origTables := tablesToSend
+			toSend, expected = toSend2, expected2
+			retryTables = tables2
+			defer func() { _ = origTables }()
+		}
+	}
 	srcFaulted := func() bool {
 		if p.SrcFault != nil && p.SrcFault.Fired > 0 {
 			// the sender could not read its own store: giving up with an error is a right answer
@@ -253,7 +318,11 @@ func execC07(t *testing.T, raw json.RawMessage, res *Result) {
 		src.Faults = []*Fault{p.SrcFault}
 		defer func() { src.Faults = nil }()
 	}
-	sender, err := apiutils.NewObjectSender(src, toSend, tablesToSend, commons, p.MaxPack)
+	sendTables := tablesToSend
+	if retryTables != nil {
+		sendTables = retryTables
+	}
+	sender, err := apiutils.NewObjectSender(src, toSend, sendTables, commons, p.MaxPack)
 	if err != nil {
 		if srcFaulted() {
 			return
